@@ -1,6 +1,7 @@
 package main
 
 import (
+	"math"
 	"fmt"
 	"sort"
 	"strings"
@@ -86,6 +87,7 @@ func c16Gen(r *obs.Run) []c16pair {
 		s := rng.Intn(span)
 		return c16iv{loc, s, s + 1 + rng.Intn(12)}
 	}
+	far := rng.Intn(25) == 0 // some intervals end at the largest int
 	seen := map[string]bool{}
 	var out []c16pair
 	for len(out) < n {
@@ -95,6 +97,7 @@ func c16Gen(r *obs.Run) []c16pair {
 		if rng.Intn(10) == 0 { // a feature paired with its own interval (a self image)
 			b = a
 		}
+
 		ivs = append(ivs, b)
 		p := c16pair{a, b, rng.Intn(100)}
 		if seen[c16Key(p)] {
@@ -102,6 +105,21 @@ func c16Gen(r *obs.Run) []c16pair {
 		}
 		seen[c16Key(p)] = true
 		out = append(out, p)
+	}
+	if far { // applied at the end, so that no other interval is derived from these
+		for k := range out {
+			if rng.Intn(3) == 0 {
+				p := out[k]
+				p.B.E = math.MaxInt64
+				if rng.Intn(2) == 0 {
+					p.B.S = math.MaxInt64 - 1 - rng.Intn(30)
+				}
+				if !seen[c16Key(p)] {
+					seen[c16Key(p)] = true
+					out[k] = p
+				}
+			}
+		}
 	}
 	return out
 }
@@ -436,6 +454,17 @@ func c16Case(r *obs.Run, i int) {
 					}
 				}
 				r.Count("answers_rewritten_by_the_caller", 1)
+			}
+			if len(got) > 0 && rng.Intn(2) == 0 { // ... and so is the slice of piles itself
+				for k := range got {
+					switch rng.Intn(3) {
+					case 0:
+						got[k] = nil
+					case 1:
+						got[k] = got[rng.Intn(len(got))]
+					}
+				}
+				r.Count("pile_slices_rewritten_by_the_caller", 1)
 			}
 		}
 		// every added feature: location is a pile (even if filtered out), mates intact
